@@ -225,6 +225,37 @@ Proof.
   left. repeat split; try reflexivity; try (left; reflexivity); try (cbn; unfold two31; lia); try discriminate.
 Qed.
 
+(* the sign restoration covers every narrow directive: none (int), h (short), hh (char) *)
+Lemma rt_int_restore : forall sp, int_restore rt_cfg sp = true.
+Proof. intros sp. unfold int_restore. destruct (n_short sp); vm_compute; reflexivity. Qed.
+
+Definition spec_hhd : nspec := {| n_conv := 100; n_long := false; n_plus := false; n_space := false;
+                                  n_zero := false; n_alt := false; n_width := 0; n_prec := None; n_short := 2 |}.
+Definition spec_hx : nspec := {| n_conv := 120; n_long := false; n_plus := false; n_space := false;
+                                 n_zero := true; n_alt := false; n_width := 6; n_prec := None; n_short := 1 |}.
+
+Example ex_int_directive_hhd : int_directive_ok rt_cfg spec_hhd spec_hhd (-128) ex_rest.
+Proof.
+  left. repeat split; try reflexivity; try (left; reflexivity); try (cbn; lia); try discriminate.
+Qed.
+
+Example ex_int_directive_hx : int_directive_ok rt_cfg spec_hx spec_hx 65535 ex_rest.
+Proof.
+  right. repeat split; try reflexivity; try (cbn; lia); try discriminate;
+    try (right; left; reflexivity).
+Qed.
+
+(* as found after the first repair: h / hh results were still zero-extended (-1 read back as 255) *)
+Definition cfg_no_narrow : config :=
+  {| cf_show_esc := rt_show_escapes; cf_look_esc := rt_look_escapes; cf_look_cont := true;
+     cf_float_look_long := true; cf_int_signext := true; cf_int_signext_narrow := false;
+     cf_lit_measure := true; cf_pct_measure := true |}.
+
+Lemma rt_scan_hh_zero_extends_refuted :
+  scan_num cfg_no_narrow spec_hhd (print_num spec_hhd (VInt (-1))) = Some (VInt 255, 2%nat) /\
+  scan_num rt_cfg spec_hhd (print_num spec_hhd (VInt (-1))) = Some (VInt (-1), 2%nat).
+Proof. vm_compute. split; reflexivity. Qed.
+
 Example ex_int_directive_lX : int_directive_ok rt_cfg spec_lX spec_lx (-5) ex_rest.
 Proof.
   right. repeat split; try reflexivity; try (cbn; unfold two63; lia); try discriminate;
